@@ -30,7 +30,7 @@ def tokens(x, strform="plain"):
             out += ([","] if k else []) + ["#%d" % v]
         return out + [")"]
     if t == "pnode":
-        body = ["PNODE", "(", str(i), ","] + ref(a) + [")"]
+        body = ["PNODE", "(", str(i), ","] + ref(a) + [","] + ref(b) + [")"]
     elif t == "pholder":
         sv = STR[strform]
         if "%d" in sv:
